@@ -43,20 +43,38 @@ fn main() {
     let argv: Vec<String> = args.iter().skip(1).map(|a| hex(a.as_bytes())).collect();
     // which other marked processes are alive right now (not zombies), by process group: the evaluations in progress
     // at the instant this one starts, as the process table shows them
-    let mut others: Vec<i32> = Vec::new();
-    if let (Ok(mark), Ok(rd)) = (std::env::var("CVH_MARK"), std::fs::read_dir("/proc")) {
-        let needle = format!("CVH_MARK={}", mark);
-        for e in rd.flatten() {
-            let p: i32 = match e.file_name().to_str().and_then(|s| s.parse().ok()) { Some(p) => p, None => continue };
-            if p == pid as i32 { continue; }
-            let env = match std::fs::read(e.path().join("environ")) { Ok(b) => b, Err(_) => continue };
-            if !env.split(|c| *c == 0).any(|kv| kv == needle.as_bytes()) { continue; }
-            let stat = std::fs::read_to_string(e.path().join("stat")).unwrap_or_default();
-            let after = stat.rsplit(')').next().unwrap_or("").trim().to_string();
-            let f: Vec<&str> = after.split_whitespace().collect();
-            if matches!(f.first().copied(), Some("Z") | Some("X") | None) { continue; }
-            if let Some(g) = f.get(2).and_then(|x| x.parse::<i32>().ok()) { if g != pgid.as_raw() && !others.contains(&g) { others.push(g); } }
+    let scan = |pid: u32, pgid: nix::unistd::Pid| -> Vec<i32> {
+        let mut others: Vec<i32> = Vec::new();
+        if let (Ok(mark), Ok(rd)) = (std::env::var("CVH_MARK"), std::fs::read_dir("/proc")) {
+            let needle = format!("CVH_MARK={}", mark);
+            for e in rd.flatten() {
+                let p: i32 = match e.file_name().to_str().and_then(|s| s.parse().ok()) { Some(p) => p, None => continue };
+                if p == pid as i32 { continue; }
+                let env = match std::fs::read(e.path().join("environ")) { Ok(b) => b, Err(_) => continue };
+                if !env.split(|c| *c == 0).any(|kv| kv == needle.as_bytes()) { continue; }
+                let stat = std::fs::read_to_string(e.path().join("stat")).unwrap_or_default();
+                let after = stat.rsplit(')').next().unwrap_or("").trim().to_string();
+                let f: Vec<&str> = after.split_whitespace().collect();
+                if matches!(f.first().copied(), Some("Z") | Some("X") | None) { continue; }
+                if let Some(g) = f.get(2).and_then(|x| x.parse::<i32>().ok()) { if g != pgid.as_raw() && !others.contains(&g) { others.push(g); } }
+            }
         }
+        others
+    };
+    // a group that has just been sent SIGKILL may still be in the table for a moment (its processes need to be
+    // scheduled once more to die): only groups that are still there on every one of several looks count as alive
+    // the tool itself (this child's parent) carries the mark too: its group is not an evaluation
+    let parent_group = nix::unistd::getpgid(Some(nix::unistd::getppid())).map(|g| g.as_raw()).unwrap_or(-1);
+    let scan = |pid: u32, pgid: nix::unistd::Pid| -> Vec<i32> { let mut v = scan(pid, pgid); v.retain(|g| *g != parent_group); v };
+    let mut others = scan(pid, pgid);
+    // (only when there are more of them than the concurrency of the run allows - CVH_NC, set by the harness - so that
+    // ordinary runs are not slowed down)
+    let nc: usize = std::env::var("CVH_NC").ok().and_then(|s| s.parse().ok()).unwrap_or(usize::MAX);
+    for wait_ms in [30u64, 120, 450] {
+        if others.len() + 1 <= nc { break; }
+        std::thread::sleep(Duration::from_millis(wait_ms));
+        let again = scan(pid, pgid);
+        others.retain(|g| again.contains(g));
     }
     log(&scen, &format!("{{\"ev\":\"start\",\"seed\":{},\"pid\":{},\"pgid\":{},\"argv\":{:?},\"others\":{:?}}}", seed, pid, pgid, argv, others));
     let plan: serde_json::Value = std::fs::read_to_string(scen.join("plan.json")).ok().and_then(|s| serde_json::from_str(&s).ok()).unwrap_or(serde_json::json!({}));
